@@ -295,29 +295,32 @@ def two_libraries(ctx):
         bad = None
         import contextlib
         for rnd in range(2):                   # two rounds of overlapping sessions on the same long-lived objects
-            with contextlib.ExitStack() as st:
-                for c in cols:
-                    st.enter_context(c.writing(timeout=5))
-                for step in range(6):
-                    j = (step + rnd) % len(cols)
-                    shared, own = f"k{rnd}{step // len(cols)}", f"own{j}r{rnd}s{step}"
-                    for k, v in ((shared, f"lib{j}:{shared}".encode()), (own, bytes([j]) * (step + 1))):
-                        try:
-                            cols[j][k] = v
-                            ref[j][k] = v
-                        except Exception as e:
-                            bad = bad or f"put {k!r} into library {j} raised {type(e).__name__}: {e}"
-                    for i, c in enumerate(cols):
-                        listed = sorted(c.keys())
-                        if listed != sorted(ref[i]) and not bad:
-                            bad = f"library {i} lists {listed[:6]} after its own puts {sorted(ref[i])[:6]}"
-                        for k, v in ref[i].items():
-                            try:
-                                got = c[k]
-                            except Exception as e:
-                                got = f"{type(e).__name__}"
-                            if got != v and not bad:
-                                bad = f"library {i}: key {k!r} reads {str(got)[:30]!r}, {v[:30]!r} was put into it"
+          try:
+              with contextlib.ExitStack() as st:
+                  for c in cols:
+                      st.enter_context(c.writing(timeout=5))
+                  for step in range(6):
+                      j = (step + rnd) % len(cols)
+                      shared, own = f"k{rnd}{step // len(cols)}", f"own{j}r{rnd}s{step}"
+                      for k, v in ((shared, f"lib{j}:{shared}".encode()), (own, bytes([j]) * (step + 1))):
+                          try:
+                              cols[j][k] = v
+                              ref[j][k] = v
+                          except Exception as e:
+                              bad = bad or f"put {k!r} into library {j} raised {type(e).__name__}: {e}"
+                      for i, c in enumerate(cols):
+                          listed = sorted(c.keys())
+                          if listed != sorted(ref[i]) and not bad:
+                              bad = f"library {i} lists {listed[:6]} after its own puts {sorted(ref[i])[:6]}"
+                          for k, v in ref[i].items():
+                              try:
+                                  got = c[k]
+                              except Exception as e:
+                                  got = f"{type(e).__name__}"
+                              if got != v and not bad:
+                                  bad = f"library {i}: key {k!r} reads {str(got)[:30]!r}, {v[:30]!r} was put into it"
+          except Exception as e:
+            bad = bad or f"overlapping writing sessions on different libraries raised {type(e).__name__}: {e}"
         for i, p in enumerate(paths):
             hdr, recs, clean = ukvlib.scan_file(p.read_bytes())
             onfile = {k.decode(): v for k, v in recs}
